@@ -164,9 +164,6 @@ func runBehaviour(steps []step, rnd *rand.Rand) *verdict {
 		case "close":
 			t.Close(a, b)
 		}
-		if v := compare(t, idx, s.St, where); v != nil {
-			return v
-		}
 		// the limits are never exceeded, whatever the spec says
 		for an := range s.St {
 			for ct, l := range limOf {
@@ -174,6 +171,9 @@ func runBehaviour(steps []step, rnd *rand.Rand) *verdict {
 					return &verdict{"topology:limit-exceeded", fmt.Sprintf("%s: node %s has %d peers of type %s, limit %d", where, an, c, typeName[ct], l), true}
 				}
 			}
+		}
+		if v := compare(t, idx, s.St, where); v != nil {
+			return v
 		}
 	}
 	// one real discover round per node against the spec's discover decisions for the final state
